@@ -49,12 +49,14 @@ type Engine struct {
 	loadErrs     []string
 	constVars    map[types.Object]ast.Expr // package-level vars with a constant initialiser, never assigned
 	constVarInfo map[types.Object]*types.Info
+	refAxDone    map[string]bool
 }
 
 func newEngine(repo, verif string) *Engine {
 	e := &Engine{repo: repo, verif: verif, pkgs: map[string]*packages.Package{}, smt: newSmt(), sh: newShaper(), cs: newContractSet(),
 		funcs: map[string]*FuncInfo{}, heapSorts: map[string]string{}, extraDropped: map[string]bool{}, autoInline: map[string]bool{}, ownedTypes: map[string]bool{}, srcCache: map[string][]string{}}
 	e.sh.sortDecls = e.smt.sorts
+	e.refAxDone = map[string]bool{}
 	return e
 }
 
@@ -432,6 +434,7 @@ type Exec struct {
 	written  map[string]bool
 	havocGhosts bool
 	curCall  *ast.CallExpr
+	entryFresh int
 }
 
 func (eng *Engine) newExec(fi *FuncInfo, c *Contract, prop string) *Exec {
